@@ -57,27 +57,37 @@ func c10R1(c *Ctx) {
 	c.ok(rule, "single-accept@"+c.fnName(fn), c.instrPos(okRet), "exactly one accepting return", true)
 	gates := []string{"processInput", "processSteps", "applyLifecycleNamespaces", "connectStepDependencies", "classifyWorkflowStageInputs"}
 	for _, g := range gates {
-		var call *ssa.Call
+		// the gate is the call whose success edge the accepting return is on; further (conditional) calls of the same
+		// function, e.g. on a second scope, are covered by C10.R1b
+		var calls []*ssa.Call
 		eachInstr(fn, func(r instrRef) {
 			if cl, ok := r.I.(*ssa.Call); ok {
 				if f := cl.Common().StaticCallee(); f != nil && funcSimpleName(f) == g {
-					call = cl
+					calls = append(calls, cl)
 				}
 			}
 		})
 		key := "gate:" + g
-		if call == nil {
+		if len(calls) == 0 {
 			c.bad(rule, key, c.pos(fn.Pos()), "Prepare no longer calls "+g)
 			continue
 		}
 		ok := false
-		if _, isTuple := call.Type().(*types.Tuple); isTuple {
-			ok = guardedBy(okRet, false, errTestOf(call)) != nil
-		} else {
-			ok = guardedBy(okRet, false, func(cond ssa.Value) bool {
-				b, isB := cond.(*ssa.BinOp)
-				return isB && b.Op == token.NEQ && isNilConst(b.Y) && derivesFrom(b.X, isValue(call))
-			}) != nil
+		call := calls[0]
+		for _, cl := range calls {
+			cl := cl
+			okc := false
+			if _, isTuple := cl.Type().(*types.Tuple); isTuple {
+				okc = guardedBy(okRet, false, errTestOf(cl)) != nil
+			} else {
+				okc = guardedBy(okRet, false, func(cond ssa.Value) bool {
+					b, isB := cond.(*ssa.BinOp)
+					return isB && b.Op == token.NEQ && isNilConst(b.Y) && derivesFrom(b.X, isValue(cl))
+				}) != nil
+			}
+			if okc {
+				ok, call = true, cl
+			}
 		}
 		c.verdict(ok, rule, key, c.instrPos(call), "a workflow is only accepted when "+g+" succeeded", "Prepare can accept a workflow although "+g+" failed: ill-typed, dangling or unclassified inputs would be run")
 	}
@@ -177,7 +187,26 @@ func (c *Ctx) returnedDirectly(call *ssa.Call) bool {
 			}
 		}
 	}
-	return false
+	// a function with a deferred recover returns through its named result: `*err = call; rundefers; return *err`
+	found := false
+	eachInstr(call.Parent(), func(r instrRef) {
+		ret, ok := r.I.(*ssa.Return)
+		if !ok {
+			return
+		}
+		res := retResults(ret)
+		if len(res) == 0 {
+			return
+		}
+		last := res[len(res)-1]
+		if last == ssa.Value(call) {
+			found = true
+		}
+		if ex, ok := last.(*ssa.Extract); ok && ex.Tuple == ssa.Value(call) && ex.Index == call.Type().(*types.Tuple).Len()-1 {
+			found = true
+		}
+	})
+	return found
 }
 
 // C10.R2 tag -> dependency kind table.
